@@ -89,6 +89,16 @@ Theorem c11_result_exact : forall style cwd wd files,
 Proof. exact glue_result_spec. Qed.
 Print Assumptions c11_result_exact.
 
+(* a command with SEVERAL dependency files: its result is the conjunction over all of them, its discovered set the
+   union (in order) of what each names *)
+Theorem c11_all_deps_files_count : forall style cwd wd files,
+  style <> StyleUnused ->
+  snd (process_discovered style cwd wd files) = forallb (file_ok style) files /\
+  (forallb (file_ok style) files = true ->
+   fst (process_discovered style cwd wd files) = flat_map (file_keys style cwd wd) files).
+Proof. exact glue_all_files_count. Qed.
+Print Assumptions c11_all_deps_files_count.
+
 Theorem c11_no_colon_fails : forall ign cwd wd files data,
   In (Some data) files -> ~ In 58 data -> skip_ws data <> [] ->
   command_result (makefile_style ign) cwd wd files = CmdFailed.
